@@ -1,7 +1,40 @@
+(* C18 model driver: one case per line, see props/C18.py for the op list *)
+
+(* 256-bit number text (canonical hex) <-> 32 little-endian bytes *)
+let le32_of_hexnum (s : string) : z list =
+  let p = String.make (64 - String.length s) '0' ^ s in
+  List.rev (zbytes_of_hex p)
+let hexnum_of_le (l : z list) : string =
+  let s = hex_of_zbytes (List.rev l) in
+  let n = String.length s in
+  let i = ref 0 in
+  while !i < n - 1 && s.[!i] = '0' do incr i done;
+  if n = 0 then "0" else String.sub s !i (n - !i)
+
 let handle op args = match op, args with
   | "frombits", [c] ->
     let ((t, neg), ovf) = fromBits (z_of_hex c) in
     Printf.sprintf "%s %s %s" (hex_of_z t) (b2s neg) (b2s ovf)
   | "tobits", [v; neg] -> hex_of_z (toBits (z_of_hex v) (neg = "1"))
+  | "frombits_b", [c] ->
+    let ((t, neg), ovf) = fromBits_b (z_of_hex c) in
+    Printf.sprintf "%s %s %s" (hexnum_of_le t) (b2s neg) (b2s ovf)
+  | "tobits_b", [v; neg] -> hex_of_z (toBits_b (le32_of_hexnum v) (neg = "1"))
+  | "add", [a; b] -> hexnum_of_le (uadd (le32_of_hexnum a) (le32_of_hexnum b))
+  | "sub", [a; b] -> hexnum_of_le (usub (le32_of_hexnum a) (le32_of_hexnum b))
+  | "mul", [a; b] -> hexnum_of_le (umul (le32_of_hexnum a) (le32_of_hexnum b))
+  | "div", [a; b] ->
+    (match udiv (le32_of_hexnum a) (le32_of_hexnum b) with Done q -> hexnum_of_le q | Throw -> "THROW")
+  | "mul32", [a; w] -> hexnum_of_le (mul32 (le32_of_hexnum a) (z_of_hex w))
+  | "shl", [a; n] -> hexnum_of_le (shl (le32_of_hexnum a) (z_of_hex n))
+  | "shr", [a; n] -> hexnum_of_le (shr (le32_of_hexnum a) (z_of_hex n))
+  | "not", [a] -> hexnum_of_le (bnot (le32_of_hexnum a))
+  | "neg", [a] -> hexnum_of_le (neg (le32_of_hexnum a))
+  | "inc", [a] -> hexnum_of_le (inc (le32_of_hexnum a))
+  | "dec", [a] -> hexnum_of_le (dec (le32_of_hexnum a))
+  | "cmp", [a; b] -> hex_of_z (cmp (le32_of_hexnum a) (le32_of_hexnum b))
+  | "bits", [a] -> hex_of_z (ubits (le32_of_hexnum a))
+  | "low64", [a] -> hex_of_z (getLow64 (le32_of_hexnum a))
+  | "ofu64", [w] -> hexnum_of_le (of_u64 (z_of_hex w))
   | _ -> failwith ("unknown op " ^ op)
 let () = main_loop handle
